@@ -216,8 +216,10 @@ example : all.length = 21 ∧ (all.filter (fun K => K.gauss)).length = 6 ∧
 example : CubicSpline_1 ∈ all ∧ ∀ p ∈ CubicSpline_1.pieces, (1 / 2 : ℝ) ≠ (p.hi : ℝ) := by
   refine ⟨by decide +kernel, ?_⟩
   intro p hp
-  simp only [CubicSpline_1, List.mem_cons, List.not_mem_nil, or_false] at hp
-  rcases hp with rfl | rfl <;> norm_num
+  have h : ∀ p ∈ CubicSpline_1.pieces, (1 / 2 : ℚ) ≠ p.hi := by decide +kernel
+  intro heq
+  have h2 : ((1 / 2 : ℚ) : ℝ) = (p.hi : ℝ) := by push_cast; exact heq
+  exact h p hp (Rat.cast_injective h2)
 
 /-- the exemption is needed: the super-Gaussian's polynomial factor is negative at `q = 2` -/
 example : eval (SuperGaussian_3.pieceAt 2).w 2 = -3/2 := by decide +kernel
